@@ -26,8 +26,14 @@ var refModel = &model{known: stats.Known}
 
 func allowNeither() bool { return stats.Known(kNilRes) }
 
-// checkOne runs one input through one transport and applies the full oracle.
+// checkOne runs one input, delivered in one piece, through one transport and applies the full oracle.
 func checkOne(c *stats.Case, h *harness, tr transport, in []byte, info *docInfo) *expectation {
+	return checkDelivered(c, h, tr, in, info, nil)
+}
+
+// checkDelivered runs one input through one transport, split into reads as dl says (nil: one piece), and applies
+// the full oracle - the expectation is a function of the bytes alone.
+func checkDelivered(c *stats.Case, h *harness, tr transport, in []byte, info *docInfo, dl *delivery) *expectation {
 	md := refModel
 	if h.mdl != nil {
 		md = h.mdl
@@ -41,22 +47,26 @@ func checkOne(c *stats.Case, h *harness, tr transport, in []byte, info *docInfo)
 		}
 	}
 	h.rec.reset()
-	res := h.call(tr, in)
-	h.lastOut = res.out
+	res := h.callDelivered(tr, in, dl)
+	h.lastOut, h.lastReads = res.out, res.reads
+	how := transportNames[tr]
+	if dl != nil {
+		how += fmt.Sprintf(", %d bytes served in reads of %v", len(in), clipInts(res.reads))
+	}
 	switch {
 	case res.hung:
-		c.Violation("hang", "%s did not return within %v\n input %q", transportNames[tr], hangTimeout, clip(in))
+		c.Violation("hang", "%s did not return within %v\n input %q", how, hangTimeout, clip(in))
 	case res.panicked != "":
-		c.Violation("panic", "%s panicked: %s\n input %q", transportNames[tr], res.panicked, clip(in))
+		c.Violation("panic", "%s panicked: %s\n input %q", how, res.panicked, clip(in))
 	case res.err != nil:
-		c.Violation("error", "%s returned error %v\n input %q", transportNames[tr], res.err, clip(in))
+		c.Violation("error", "%s returned error %v\n input %q", how, res.err, clip(in))
 	case res.extra != "":
-		c.Violation("transport", "%s: %s\n input %q", transportNames[tr], res.extra, clip(in))
+		c.Violation("transport", "%s: %s\n input %q", how, res.extra, clip(in))
 	}
 	log := h.rec.snapshot()
 	key, msg := verdict(ex, in, res.out, log, true, allowNeither())
 	if key != "" {
-		c.Violation(key, "[%s] %s", transportNames[tr], msg)
+		c.Violation(key, "[%s] %s", how, msg)
 	}
 	if msg == "inconclusive" {
 		c.Info("match-search-exhausted")
@@ -271,7 +281,9 @@ func TestPropPositionalNamedAgree(t *testing.T) {
 			if len(vals) >= 2 || len(vals) < len(sp.params) {
 				c.NonTrivial("multi-arg-or-absent-optional-tail")
 			}
-			c.Sample(func() any { return map[string]string{"positional": string(inPos), "named": string(inNamed), "class": exP.scen[0].entries[0].class} })
+			c.Sample(func() any {
+				return map[string]string{"positional": string(inPos), "named": string(inNamed), "class": exP.scen[0].entries[0].class}
+			})
 		})
 }
 
@@ -672,31 +684,101 @@ var (
 
 // fuzzOne is the semantic oracle applied to arbitrary bytes: no panic, no hang, no error, output empty or valid
 // JSON obeying the response grammar, batch ⇒ array, and – whenever the reference model can interpret the
-// input – exactly the predicted responses and handler invocations.
-func fuzzOne(in []byte) (string, string, *expectation) {
+// input – exactly the predicted responses and handler invocations. With a delivery the bytes are served in those
+// segments and must additionally be answered like the same bytes served in one piece.
+func fuzzOne(in []byte, dl *delivery) (string, string, *expectation) {
 	fuzzOnce.Do(func() { fuzzH = newHarness(4, false) })
 	h := fuzzH
 	ex := refModel.doc(in)
-	h.rec.reset()
-	res := h.call(trReader, in)
-	switch {
-	case res.hung:
-		return "hang", fmt.Sprintf("no return within %v; input %q", hangTimeout, clip(in)), ex
-	case res.panicked != "":
-		return "panic", fmt.Sprintf("%s; input %q", res.panicked, clip(in)), ex
-	case res.err != nil:
-		return "error", fmt.Sprintf("%v; input %q", res.err, clip(in)), ex
+	run := func(dl *delivery) (string, string, string) {
+		h.rec.reset()
+		res := h.callDelivered(trReader, in, dl)
+		how := ""
+		if dl != nil {
+			how = fmt.Sprintf(" served in reads of %s", clipInts(res.reads))
+		}
+		switch {
+		case res.hung:
+			return "hang", fmt.Sprintf("no return within %v; input %q%s", hangTimeout, clip(in), how), ""
+		case res.panicked != "":
+			return "panic", fmt.Sprintf("%s; input %q%s", res.panicked, clip(in), how), ""
+		case res.err != nil:
+			return "error", fmt.Sprintf("%v; input %q%s", res.err, clip(in), how), ""
+		}
+		log := h.rec.snapshot()
+		key, msg := verdict(ex, in, res.out, log, true, allowNeither())
+		if key != "" {
+			return key, msg + how, ""
+		}
+		return "", msg, behaviour(res.out, log)
 	}
-	key, msg := verdict(ex, in, res.out, h.rec.snapshot(), true, allowNeither())
+	key, msg, whole := run(nil)
+	if key != "" || dl == nil {
+		return key, msg, ex
+	}
+	key, msg, seg := run(dl)
+	if key == "" && seg != whole {
+		key, msg = "delivery-dependent", fmt.Sprintf("same bytes, segments %v: %s; input %q", dl.segs, firstDifference(whole, seg), clip(in))
+	}
 	return key, msg, ex
 }
 
+// fuzzDelivery turns the fuzzer's three segment sizes into a delivery (0 ends the list; the rest comes in one piece).
+func fuzzDelivery(s1, s2, s3 uint16) *delivery {
+	dl := &delivery{}
+	for _, s := range []uint16{s1, s2, s3} {
+		if s == 0 {
+			break
+		}
+		dl.segs = append(dl.segs, int(s))
+	}
+	if len(dl.segs) == 0 {
+		return nil
+	}
+	return dl
+}
+
+// deliverySeeds: large requests (position-dependent content) with the sizes of their first three segments.
+var deliverySeeds = func() []struct {
+	in   string
+	segs [3]uint16
+} {
+	str := `{"jsonrpc":"2.0","id":7,"method":"ctxTwo","params":["` + posText(2000, 0, ".") + `",true]}`
+	named := `{"jsonrpc":"2.0","id":"n","method":"req","params":{"r":{"name":"` + posText(5000, 17, " ") + `"}}}`
+	items := make([]string, 300)
+	for i := range items {
+		items[i] = fmt.Sprintf(`{"k%d":["v%d","w"]}`, i, i)
+	}
+	raw := `{"jsonrpc":"2.0","id":1,"method":"raw","params":[[` + strings.Join(items, ",") + `]]}`
+	calls := make([]string, 120)
+	for i := range calls {
+		calls[i] = fmt.Sprintf(`{"jsonrpc":"2.0","method":"sub","params":[%d,%d],"id":%d}`, 1000+i, i, i)
+	}
+	batch := `[` + strings.Join(calls, ",") + `]`
+	var out []struct {
+		in   string
+		segs [3]uint16
+	}
+	for _, in := range []string{str, named, raw, batch, batch[:len(batch)-40], raw[:3000] + "}" + raw[3000:]} {
+		for _, segs := range [][3]uint16{{0, 0, 0}, {1, 1, 1}, {128, 600, 100}, {128, 512, 1}, {1400, 1400, 200}, {700, 90, 0}, {511, 513, 1024}} {
+			out = append(out, struct {
+				in   string
+				segs [3]uint16
+			}{in, segs})
+		}
+	}
+	return out
+}()
+
 func FuzzHandleReader(f *testing.F) {
 	for _, s := range fuzzSeeds {
-		f.Add([]byte(s))
+		f.Add([]byte(s), uint16(0), uint16(0), uint16(0))
 	}
-	f.Fuzz(func(t *testing.T, in []byte) {
-		if key, msg, _ := fuzzOne(in); key != "" {
+	for _, s := range deliverySeeds {
+		f.Add([]byte(s.in), s.segs[0], s.segs[1], s.segs[2])
+	}
+	f.Fuzz(func(t *testing.T, in []byte, s1, s2, s3 uint16) {
+		if key, msg, _ := fuzzOne(in, fuzzDelivery(s1, s2, s3)); key != "" {
 			t.Fatalf("ORACLE[%s] %s", key, msg)
 		}
 	})
@@ -705,26 +787,37 @@ func FuzzHandleReader(f *testing.F) {
 // TestPropSeedCorpus runs the fuzz target's oracle over its seed corpus in every tier (the native fuzzer itself
 // only runs in the thorough tier) and records the evaluations.
 func TestPropSeedCorpus(t *testing.T) {
+	const rule = "deterministic: every seed of FuzzHandleReader (server_test.go literals, JSON-RPC spec examples, hostile constants; large requests " +
+		"with the sizes of their first three segments) under the fuzz oracle"
+	one := func(i int, s string, dl *delivery) {
+		stats.Once(t, rule, func(c *stats.Case) {
+			key, msg, ex := fuzzOne([]byte(s), dl)
+			if key != "" {
+				t.Fatalf("ORACLE[%s] seed %d: %s", key, i, msg)
+			}
+			c.Fp("%s", s)
+			if dl != nil {
+				c.Fp("%v", dl.segs)
+				c.Label("delivery:segmented")
+			}
+			if ex.amb != "" {
+				c.Label("oracle:grammar-only(ambiguous input)")
+			} else {
+				c.Label("oracle:full")
+			}
+			for k := range ex.classes {
+				c.Label("known-class-hit:" + k)
+			}
+			if ex.validJSON {
+				c.NonTrivial("valid-json")
+			}
+		})
+	}
 	for i, s := range fuzzSeeds {
-		stats.Once(t, "deterministic: every seed of FuzzHandleReader (server_test.go literals, JSON-RPC spec examples, hostile constants) under the fuzz oracle",
-			func(c *stats.Case) {
-				key, msg, ex := fuzzOne([]byte(s))
-				if key != "" {
-					t.Fatalf("ORACLE[%s] seed %d: %s", key, i, msg)
-				}
-				c.Fp("%s", s)
-				if ex.amb != "" {
-					c.Label("oracle:grammar-only(ambiguous input)")
-				} else {
-					c.Label("oracle:full")
-				}
-				for k := range ex.classes {
-					c.Label("known-class-hit:" + k)
-				}
-				if ex.validJSON {
-					c.NonTrivial("valid-json")
-				}
-			})
+		one(i, s, nil)
+	}
+	for i, s := range deliverySeeds {
+		one(len(fuzzSeeds)+i, s.in, fuzzDelivery(s.segs[0], s.segs[1], s.segs[2]))
 	}
 }
 
